@@ -9,16 +9,47 @@ inductive DepCost
   deriving DecidableEq, Repr, Inhabited
 
 /-- What the first gas-charging statement of `impl Execute for op::X` (opcodes_impl.rs), or of the
-    interpreter method it delegates to, looks like. `unitArg` is the position, in the tuple returned by
-    `self.unpack()`, of the operand whose (register or immediate) value is the unit count. -/
+    interpreter method it delegates to, looks like. `getter` is the `GasCostsValues` getter called; `unitArg`
+    is the position, in the tuple returned by `self.unpack()`, of the operand whose (register or immediate)
+    value is the unit count. -/
 inductive ChargeKind
-  | fixed (field : String)                    -- `gas_charge(gas_costs().f())`
-  | fixedOpt (field : String)                 -- `gas_charge(gas_costs().f().map_err(PanicReason::from)?)`
-  | dep (field : String) (unitArg : Nat)      -- `dependent_gas_charge(gas_costs().f(), units)`
-  | depOpt (field : String) (unitArg : Nat)   -- same, cost getter returns `Result<_, GasCostNotDefined>`
-  | baseThenDep (field : String)              -- `gas_charge(c.base())` … `dependent_gas_charge_without_base(c, size)`
-  | baseThenDepOpt (field : String)           -- same with an optional getter (BSIZ, BLDD)
+  | fixed (getter : String)                    -- `gas_charge(gas_costs().g())`
+  | fixedOpt (getter : String)                 -- `gas_charge(gas_costs().g().map_err(PanicReason::from)?)`
+  | dep (getter : String) (unitArg : Nat)      -- `dependent_gas_charge(gas_costs().g(), units)`
+  | depOpt (getter : String) (unitArg : Nat)   -- same, cost getter returns `Result<_, GasCostNotDefined>`
+  | baseThenDep (getter : String)              -- `gas_charge(c.base())` … `dependent_gas_charge_without_base(c, size)`
+  | baseThenDepOpt (getter : String)           -- same with an optional getter (BSIZ, BLDD)
   | none                                      -- no charge made by the VM itself (ECAL)
+  deriving DecidableEq, Repr, Inhabited
+
+/-- one arm `GasCostsValues::Vk(vk) => …` of a getter of `impl GasCostsValues` (fuel-tx gas.rs) -/
+inductive GetterArm
+  | field (f : String)    -- `vk.f` / `Ok(vk.f)`
+  | heavy0 (f : String)   -- `DependentCost::HeavyOperation { base: vk.f, gas_per_unit: 0 }` (a `Word` field of an old version)
+  | undef                 -- `Err(GasCostNotDefined)`
+  deriving DecidableEq, Repr, Inhabited
+
+/-- byte length of the value a storage opcode writes to a slot -/
+inductive SLen
+  | const (n : Nat)                  -- a `Bytes32` (SWW, SWWQ)
+  | arg (i : Nat)                    -- operand `i` (SWRD, SWRI)
+  | update (offArg lenArg : Nat)     -- storage.rs `storage_update_from_memory`: `max(old_len, offset + write_len)`,
+                                     -- `offset = u64::MAX` meaning "append"; `offset > old_len` panics
+  deriving DecidableEq, Repr, Inhabited
+
+/-- micro-operations of storage.rs in the order an opcode performs them on one slot -/
+inductive SStep
+  | read                  -- `storage_read_slot`: one charge, hot or cold
+  | write (len : SLen)    -- `storage_write_slot`: uncharged length lookup, `storage_write` charge, new-bytes charge
+  | clear (rangeArg : Nat)-- `storage_clear_slot_range(key, operand rangeArg)`: one charge
+  deriving DecidableEq, Repr, Inhabited
+
+/-- shape of a storage opcode's `execute` after its `noop()` charge -/
+structure StorageOp where
+  keyArg : Nat                 -- operand holding the pointer to the (first) slot key
+  rangeArg : Option Nat        -- `some i`: `for key in key_range(key, operand i)` around `perSlot`
+  perSlot : List SStep         -- inside the loop (empty when there is no loop)
+  after : List SStep           -- after the loop / the whole body when there is no loop
   deriving DecidableEq, Repr, Inhabited
 
 end FuelVerif.Gas
